@@ -179,6 +179,7 @@ def class_attrs(klass, names):
 def init_wc(wc, preds, rets):
     ctx = wc.ctx
     ctx._trace = []
+    ctx._log = ctx._trace          # one object under two context keys: what is read back (_log) is what the steps append to (_trace)
     ctx._seen = []
     ctx._pi = 0
     ctx._ri = 0
@@ -264,6 +265,7 @@ def build_proc(names):
 def init_proc(proc, prog):
     ctx = proc.ctx
     ctx._trace = []
+    ctx._log = ctx._trace
     ctx._seen = []
     ctx._counts = {}
     ctx._prog = {k: [dict(v) for v in vs] for k, vs in prog}
